@@ -87,6 +87,11 @@ def main():
         C = pyramid_contracts(dim)
         for fn in ('c11_roundtrip', 'c11_decode'):
             chk.unit('verif:shims/c11_pyramid.c', fn, C, 'math', 'real', abspath=SHIM2, check_arith=False, prefix='[dim=%d]' % dim, fixed={'dim': dim})
+    # frictionless contacts (condim 1): one row, the force is the single pyramid entry
+    C1 = {'__auto_inline__': True,
+          'c11_decode': {'params': {'force': {'n': 1}, 'pyr': {'n': 1}, 'mu': {'n': 1}}, 'requires': {'edge_nonneg': 'pyr[0] >= 0'},
+                         'ensures': {'normal_is_the_single_edge': 'force[0] == pyr[0]', 'normal_nonneg': 'force[0] >= 0'}, 'no_error': True}}
+    chk.unit('verif:shims/c11_pyramid.c', 'c11_decode', C1, 'math', 'real', abspath=SHIM2, check_arith=False, prefix='[dim=1]', fixed={'dim': 1})
     chk.assumptions |= {'machine doubles treated as mathematical reals',
                         'efc_D > 0, efc_R > 0, frictionloss >= 0, mu > 0, friction > 0, R[j]*friction[j-1]^2 == R[0]*mu^2 (mj_makeImpedance)',
                         'Newton and CG return the efc_force computed by mj_constraintUpdate_impl at their final iterate: the '
